@@ -12,6 +12,7 @@ Clauses of the statement and where they are:
 
 * (i) **frame** — `frame_residue`, `frame_sublist`, `frame_other_nodes`, `frame_comments`, `frame_other_text`,
   `parser_docstr_only_after_def` (full strength: every node list, every edit list, every header-parse oracle);
+* **async** — `async_docstring_like_function`, `async_edit_like_function`: an `async def` is treated exactly like a `def`;
 * (ii) **erase** — `erase_docTrans_partial` on the stated region, the full statement `erase_docTrans_full` is
   *false* for the code as it is: `erase_docTrans_not_full_bare_annotation`, `erase_docTrans_not_full_double_string`,
   `erase_docTrans_not_full_bare_name` (all only at the AST level: the CST write-back never writes these changes to the file — that is clause (i));
@@ -88,6 +89,88 @@ example :
     let e : FnEdit := { kind := .fn, name := ['f'], lineno := 1, body0 := .str ['b'] }
     (doctransifyCst (fun _ => .ok {}) (cstParse src) [e]).toOption.map (fun ns => (ns.map (·.kind), ns == cstParse src))
       = some (["FunctionDefinitionStart", "TripleQuoted", "CommentStatement", "UnchangingLine"], false) := by
+  decide
+
+/-! ## docstrings of `async def` -/
+
+/-- **`async def` is treated like `def`.**  The docstring step (`maybe_replace_doc_str_in_function_or_class` with
+    `get_doc_str`) yields the same node list — and raises the same exception — whether the definition is an
+    `AsyncFunctionDef` or a `FunctionDef`; only the type name in the debug line differs.  (Before the repair of
+    `get_doc_str` an `async def` "had no docstring" and the existing one was deleted.) -/
+theorem async_docstring_like_function (nodes : List Node) (idx : Nat) (e : FnEdit) :
+    (replaceDoc nodes idx { e with kind := .asyncFn }).map (·.1) = (replaceDoc nodes idx { e with kind := .fn }).map (·.1) := by
+  unfold replaceDoc
+  cases newDocOf e.body0 with
+  | error x => rfl
+  | ok nd =>
+    simp only [bind, Except.bind]
+    cases nd <;> cases isDocTQ ((nodes[idx + 1]?).getD emptyLine) <;> simp only [] <;> try rfl
+    all_goals (split <;> try rfl)
+    all_goals (split <;> rfl)
+
+/-- the whole iteration for a definition: same nodes / same exception for `async def` and `def` -/
+theorem async_edit_like_function (parse : HeaderParser) (nodes : List Node) (e : FnEdit) :
+    (applyEdit parse nodes { e with kind := .asyncFn }).2 = (applyEdit parse nodes { e with kind := .fn }).2 := by
+  have hm : ∀ n, matchesNode { e with kind := .asyncFn } n = matchesNode { e with kind := .fn } n := fun _ => rfl
+  have hfrom : ∀ (ns : List Node) (i : Nat),
+      findCstFrom { e with kind := .asyncFn } ns i = findCstFrom { e with kind := .fn } ns i := by
+    intro ns
+    induction ns with
+    | nil => intro i; rfl
+    | cons n rest ih => intro i; simp only [findCstFrom, hm, ih]
+  have hfind : findCst { e with kind := .asyncFn } nodes = findCst { e with kind := .fn } nodes := hfrom nodes 0
+  have hdoc := async_docstring_like_function nodes
+  unfold applyEdit
+  rw [hfind]
+  cases findCst { e with kind := .fn } nodes with
+  | none => rfl
+  | some idx =>
+    have hd := hdoc idx e
+    simp only
+    cases ha : replaceDoc nodes idx { e with kind := .asyncFn } with
+    | error x =>
+      cases hf : replaceDoc nodes idx { e with kind := .fn } with
+      | error y => rw [ha, hf] at hd; simp [Except.map] at hd; simp [hd]
+      | ok r => rw [ha, hf] at hd; simp [Except.map] at hd
+    | ok r =>
+      cases hf : replaceDoc nodes idx { e with kind := .fn } with
+      | error y => rw [ha, hf] at hd; simp [Except.map] at hd
+      | ok r' =>
+        rw [ha, hf] at hd
+        simp only [Except.map, Except.ok.injEq] at hd
+        obtain ⟨n1, l1⟩ := r
+        obtain ⟨n2, l2⟩ := r'
+        simp only at hd
+        subst hd
+        have hk1 : (({ e with kind := DefKind.asyncFn } : FnEdit).kind == DefKind.cls) = false := rfl
+        have hk2 : (({ e with kind := DefKind.fn } : FnEdit).kind == DefKind.cls) = false := rfl
+        simp only [hk1, hk2, Bool.false_eq_true, if_false]
+        cases n1[idx]? with
+        | none => rfl
+        | some hdr =>
+          simp only
+          cases parse (reindentWithPass hdr.value) with
+          | error x => rfl
+          | ok cur =>
+            simp only
+            cases replaceReturn cur.returns e.sig.returns hdr.value with
+            | none =>
+              simp only
+              cases replaceArgs cur.args e.sig.args ((n1[idx]?).getD hdr).value with
+              | error x => rfl
+              | ok r2 => rfl
+            | some rv =>
+              obtain ⟨v, d⟩ := rv
+              simp only
+              cases replaceArgs cur.args e.sig.args (((setAt n1 idx (headerNode hdr v))[idx]?).getD hdr).value with
+              | error x => rfl
+              | ok r2 => rfl
+
+/-- an `async def` whose docstring the AST stage left alone keeps it (the node list is unchanged) -/
+example :
+    let src : Str := ['a','s','y','n','c',' ','d','e','f',' ','f','(',')',':','\n',' ','"','"','"','a','"','"','"','\n']
+    let e : FnEdit := { kind := .asyncFn, name := ['f'], lineno := 1, body0 := .str ['a'] }
+    (doctransifyCst (fun _ => .ok {}) (cstParse src) [e]).toOption.map (fun ns => ns == cstParse src) = some true := by
   decide
 
 /-! ## (ii) erase on the AST-level model -/
